@@ -840,15 +840,15 @@ section Applied
 open GoblVerif.Generated.RefsFacts
 
 /-- bill.Invoice validates `$tags` with `tax.TagsIn` over its `supportedTags`; Order, Delivery
-    and Payment hold the list to the key syntax only (a rule without arguments on `Tags.List`,
+    and Payment hold the list to the key syntax only (every entry required, nothing else, on `Tags.List`,
     since /repo 6a2cb4a) and never call `TagsIn`: `tagCheckedSchemas` is what the code does -/
 theorem tags_rule_applied_by_invoices_only :
     ("Tags.List", ["tax.TagsIn(inv.supportedTags()...)"]) ∈ rules_Invoice_ValidateWithContext ∧
     "TagsIn" ∉ calls_Order_ValidateWithContext ∧ "TagsIn" ∉ calls_Delivery_ValidateWithContext ∧
     "TagsIn" ∉ calls_Payment_ValidateWithContext ∧
-    (rules_Order_ValidateWithContext.filter (fun r => r.1 == "Tags" || r.1 == "Tags.List")) = [("Tags.List", [])] ∧
-    (rules_Payment_ValidateWithContext.filter (fun r => r.1 == "Tags" || r.1 == "Tags.List")) = [("Tags.List", [])] ∧
-    (rules_Delivery_ValidateWithContext.filter (fun r => r.1 == "Tags" || r.1 == "Tags.List")) = [("Tags.List", [])] := by
+    (rules_Order_ValidateWithContext.filter (fun r => r.1 == "Tags" || r.1 == "Tags.List")) = [("Tags.List", ["validation.Each(validation.Required)"])] ∧
+    (rules_Payment_ValidateWithContext.filter (fun r => r.1 == "Tags" || r.1 == "Tags.List")) = [("Tags.List", ["validation.Each(validation.Required)"])] ∧
+    (rules_Delivery_ValidateWithContext.filter (fun r => r.1 == "Tags" || r.1 == "Tags.List")) = [("Tags.List", ["validation.Each(validation.Required)"])] := by
   decide +kernel
 
 /-- `(*Invoice).supportedTags`: the regime's tag set, then each addon's, merged, then the
